@@ -106,7 +106,8 @@ def run_shard(shard, tier, seed, wd, res):
     singles = []
     pairs = []
     if shard["idx"] == 0:
-        singles += [f.zero, f.one, f.neg(f.one), f.small(2)] + exceptional_inputs(g)
+        from props.c15 import sswu_special_inputs
+        singles += [f.zero, f.one, f.neg(f.one), f.small(2)] + exceptional_inputs(g) + sswu_special_inputs(g)
         if g == 2:
             singles += [(0, 1), (0, Q - 1), (1, 1), (Q - 1, 0), (0, 2)]
         for a in singles:
